@@ -18,7 +18,7 @@ class C24(core.Prop):
     drivers = ["route_driver"]
     ready = True
     max_workers = 4
-    sizes = {"quick": 250, "thorough": 10000}
+    sizes = {"quick": 350, "thorough": 10000}
     technique = ("property-based testing (Hypothesis): reference route resolver written from the platform description and the "
                  "documented recursive algorithm; validity predicates (C25/C26) for the segments whose local route is not unique")
     rule = ("Hypothesis generates platforms of nested zones, at most 3 levels below the root zone and 40 hosts: leaf zones Full (all pairs "
@@ -28,7 +28,9 @@ class C24(core.Prop):
             "DijkstraCache over sub-zones (zone routes with explicit gateways, per-direction gateways, chains whose consecutive gateways "
             "differ), Star with zones and hosts mixed, clusters whose leaves are small zones; split-duplex links, routers, declared "
             "loopback routes, default gateways, bypassRoute (two hosts of a zone) and bypassZoneRoute (zones below two different "
-            "children, one per declaring zone).  Gateways are direct members of the zone they speak for or (labelled class, as in "
+            "children, one per declaring zone).  Three platforms in ten are a Floyd zone whose outer sub-zones are only connected "
+            "through a transit sub-zone entered and left by two different gateways, with directional routes inside it (label "
+            "transit-two-gateways).  Gateways are direct members of the zone they speak for or (labelled class, as in "
             "examples/platforms/g5k.xml) nested in a sub-zone.  route_driver builds the platform through the s4u API; all host pairs "
             "(<= 7 hosts) or 10-50 drawn pairs (+ hosts to themselves) are asked to Host::route_to.  Oracle: a reference resolver "
             "written from the description and Platform_routing.rst (bypass first; same zone -> local route; else common ancestor, the "
@@ -157,6 +159,9 @@ class C24(core.Prop):
         oc.labels.append("depth:%d" % max(z.depth() for z in plat.zones.values()))
         for f in sorted(allflags):
             oc.labels.append("flag:" + f)
+        if any(f.startswith("sp-interior-gateway-mismatch:") for f in allflags):
+            # some queried pair crosses a sub-zone of a shortest-path zone that is entered and left by different gateways
+            oc.labels.append("transit-two-gateways")
         nh = len(plat.hosts())
         oc.labels.append("hosts:" + ("1-4" if nh <= 4 else "5-12" if nh <= 12 else "13-40"))
         oc.nontrivial = nontrivial
